@@ -157,7 +157,50 @@ def origins_through_try(body, o, depth=6):
     """origins(), but a value that was wrapped by an inlined helper (`Ok(v)` / `Some(v)`) and unwrapped again by the caller's `?`
     (`Try::branch` + `(cf as Continue).0`) or by a pattern (`(r as Ok).0`) is followed to the origins of v."""
     out = []
+
+    def component(x, rest):
+        # the payload is a tuple built by the helper (`Ok((model, version))`): follow the remaining `.N` projections into the aggregate
+        for pr in rest:
+            if not (is_local_op(x) and re.match(r'^\.\d+$', pr)):
+                return None
+            nx = None
+            for og2 in origins(body, x):
+                st2 = og2[1] if og2[0] not in ('param', 'const', 'place') else None
+                if isinstance(st2, dict) and st2.get('k') == 'assign' and st2['rv']['k'] in ('agg', 'tuple') and len(st2['rv'].get('ops', [])) > int(pr[1:]):
+                    nx = st2['rv']['ops'][int(pr[1:])]
+            if nx is None:
+                return None
+            x = nx
+        return x
     for og in origins(body, o):
+        if og[0] == 'place' and depth > 0 and len(og[1]['p']) > 2 and og[1]['p'][0] in ('as Continue', 'as Ok', 'as Some') and all(re.match(r'^\.\d+$', x) for x in og[1]['p'][2:]):
+            # a component of a tuple payload
+            inner = origins_through_try(body, {'l': og[1]['l'], 'p': og[1]['p'][:2]}, depth - 1)
+            done = False
+            for og2 in inner:
+                st2 = og2[1] if og2[0] not in ('param', 'const', 'place') else None
+                if isinstance(st2, dict) and st2.get('k') == 'assign' and st2['rv']['k'] in ('agg', 'tuple'):
+                    c = component({'l': st2['dst']['l'], 'p': []}, og[1]['p'][2:])
+                    if c is not None:
+                        out += origins_through_try(body, c, depth - 1)
+                        done = True
+            if not done:
+                out.append(og)
+            continue
+        if og[0] == 'place' and depth > 0 and og[1]['p'] and all(re.match(r'^\.\d+$', x) for x in og[1]['p']):
+            # `let (a, b) = helper()?;` - a component of a tuple that was moved out of the payload first
+            inner = origins_through_try(body, {'l': og[1]['l'], 'p': []}, depth - 1)
+            done = False
+            for og2 in inner:
+                st2 = og2[1] if og2[0] not in ('param', 'const', 'place') else None
+                if isinstance(st2, dict) and st2.get('k') == 'assign' and st2['rv']['k'] in ('agg', 'tuple'):
+                    c = component({'l': st2['dst']['l'], 'p': []}, og[1]['p'])
+                    if c is not None:
+                        out += origins_through_try(body, c, depth - 1)
+                        done = True
+            if not done:
+                out.append(og)
+            continue
         if og[0] == 'place' and depth > 0 and len(og[1]['p']) >= 2 and og[1]['p'][0] in ('as Continue', 'as Ok', 'as Some'):
             base = {'l': og[1]['l'], 'p': []}
             pierced = False
